@@ -29,7 +29,7 @@ template <class G> static Res inv(const G& g, double lat1, double lon1, double l
 }
 struct Solvers {
   std::unique_ptr<Geodesic> gs, gx; std::unique_ptr<GeodesicExact> ge;
-  void make(const geodtab::Ell& E) { if (ge) return; if (E.series) gs.reset(new Geodesic(E.a, E.f)); ge.reset(new GeodesicExact(E.a, E.f)); gx.reset(new Geodesic(E.a, E.f, true)); }
+  void make(const geodtab::Ell& E) { if (E.series) gs.reset(new Geodesic(E.a, E.f)); ge.reset(new GeodesicExact(E.a, E.f)); gx.reset(new Geodesic(E.a, E.f, true)); }
   Res inv(int sv, double a, double b, double c, double d) const { return sv == 0 ? ::inv(*gs, a, b, c, d) : (sv == 1 ? ::inv(*ge, a, b, c, d) : ::inv(*gx, a, b, c, d)); }
 };
 static const char* svname(int sv) { return sv == 0 ? "series" : (sv == 1 ? "exact" : "exact=true"); }
@@ -57,6 +57,8 @@ int main(int argc, char** argv) {
                              : "5 bases (equator, 30N, -45.5/100E, pole-1e-7, -89.9/179.9999E) x 8 bearings x {0,1e-9,3e-8,1e-7,1e-6,1e-3,1,1e3} m (320)");
   ctx.bound("pairs.equatorial", T ? "lon12 in {(1-f)180 + {0,+-1e-12,+-1e-9,+-1e-6,+-1e-3,+-1}, 1e-9, 28.6, 28.7, 90, 135, 179, 179.9, 179.999999, 180, 179.5 with lat -0/+0}; lat = +-{1e-10,1e-3} on one or both sides of the equator x lon12 = (1-f)180 + {0,+-1e-9,1e-3} (45)"
                                   : "lon12 in {(1-f)180 + {0,+-1e-9,+-1e-3}, 179.9, 180, 179.5 with lat -0/+0} (8)");
+  ctx.bound("pairs.tiny_lat", T ? "lat1 in +-{5e-324,1e-310,1e-200,1e-160,1e-155,1e-100,1e-20} x lat2 in {0,-0,lat1,1e-9} x lon12 in {1,90,179,179.9} (224); closed-form equatorial answer where both |lat| <= 1e-20" : "lat1 in {5e-324,-1e-160,1e-155} x lat2 in {0,lat1} x lon12 in {1,90} (12)");
+  ctx.bound("pairs.history", "after each pair: probes general (10,0,40,70), meridional (10,0,60,0), equatorial (0,0,0,50), short, and the pair again on the unit's objects, each bit-identical to a brand-new object; solver objects are constructed afresh in every unit");
   ctx.bound("pairs.config", "{series (|f|<=0.2), exact, exact=true} x {given, swapped, equator-reflected, meridian-reflected, lon1+360, lon1-1080}");
   ctx.note("tolerance = 2 x documented position error of the solver for the flattening (models/geod_tables.hpp); azimuth differences are weighted by |m12| (the displacement they cause at the other end), as the documentation states for the inverse problem");
   ctx.note("symmetry images are compared with the transformed base result within 2 tol; where Geodesic.hpp documents a non-unique shortest geodesic (lat1 = -lat2, or lon12 = +-180) the documented alternative is accepted; lon +- 360k must reproduce the base result bit for bit when lon1 + 360k is exactly representable");
@@ -65,13 +67,12 @@ int main(int argc, char** argv) {
   for (size_t ei = 0; ei < ells.size(); ++ei) {
     const geodtab::Ell& E = ells[ei];
     if (!T && !E.quick) continue;
-    Solvers S;
     const std::vector<geodlat::Pair> pairs = geodlat::inverse_pairs(E, T ? 2 : 0);
     const ld tolv[3] = {geodtab::tol_series(E), geodtab::tol_exact(E), geodtab::tol_exact(E)};
     const ld tolA[3] = {geodtab::tol_area_series(E), geodtab::tol_area_exact(E), geodtab::tol_area_exact(E)};
     for (size_t pi = 0; pi < pairs.size(); ++pi) {
       if (!ctx.take()) continue;
-      S.make(E);
+      Solvers S; S.make(E);                 // fresh objects in every unit: a unit is self-contained (replay reproduces)
       const geodlat::Pair& P = pairs[pi];
       // both end points in R^3 (unit a)
       ld r1[3], r2[3], N[3], Ev[3]; E.e.frame(P.lat1, P.lon1, r1, N, Ev); E.e.frame(P.lat2, P.lon2, r2, N, Ev);
@@ -98,11 +99,11 @@ int main(int argc, char** argv) {
           R = S.inv(sv, P.lat1, P.lon1, P.lat2, P.lon2); ++ncalls;
           if (!finite(R)) { bad("nonfinite", "", "an output is not finite / not set: s12=" + fmt(R.s12) + " azi1=" + fmt(R.azi1) + " azi2=" + fmt(R.azi2) + " a12=" + fmt(R.a12)); continue; }
           base[sv] = R; have[sv] = true;
-          // nearly antipodal pairs: an excess of up to 64 x tolerance is classed separately (see known_findings.d/C02.json)
+          // nearly antipodal pairs: an excess of up to 128 x tolerance is classed separately (see known_findings.d/C02.json)
           const bool nearanti = R.a12 >= 179.9 || fabsl(remainderl((ld)P.lon2 - (ld)P.lon1, 360.0L)) >= 179.9L;
           // an end point within 0.01 deg of a pole: an excess of up to 4 x tolerance is classed separately (b/a = 32, see known findings)
           const bool polar = fabs(P.lat1) >= 89.99 || fabs(P.lat2) >= 89.99;
-          auto acc = [&](const char* kind, ld err) { return (nearanti && err <= 64 * tol) ? "antipodal-accuracy" : ((polar && err <= 4 * tol) ? "polar-accuracy" : (err <= 2 * tol ? "marginal-accuracy" : kind)); };   // marginal: between 1 and 2 x tolerance
+          auto acc = [&](const char* kind, ld err) { return (nearanti && err <= 128 * tol) ? "antipodal-accuracy" : ((polar && err <= 4 * tol) ? "polar-accuracy" : (err <= 2 * tol ? "marginal-accuracy" : kind)); };   // marginal: between 1 and 2 x tolerance
           // ---- ranges / shortest-path conditions that need no oracle
           if (R.s12 < 0) ctx.count("s12.negative_within_tolerance");
           if (!(R.s12 >= -tol)) bad("range", "s12", "s12 " + fx(R.s12) + " negative");
@@ -189,6 +190,47 @@ int main(int argc, char** argv) {
           ++bit_tot; if (I.s12 == im.want.s12 && angdiff(I.azi1, im.want.azi1) == 0 && angdiff(I.azi2, im.want.azi2) == 0) ++bit_same;
           ctx.worstf(std::string("symmetry.") + im.name + ".err_over_tol." + svn, (double)best, where);
           if (!(best <= 1)) bad("symmetry", im.name, std::string(im.name) + ": " + bestwhat + " differs from the transformed base result by " + fmtl(best) + " x tolerance (image s12=" + fx(I.s12) + " azi1=" + fx(I.azi1) + " azi2=" + fx(I.azi2) + " S12=" + fmt(I.S12) + "; base s12=" + fx(R.s12) + " azi1=" + fx(R.azi1) + " azi2=" + fx(R.azi2) + " S12=" + fmt(R.S12) + ")");
+        }
+      }
+      // ---- history independence: the objects of this unit have by now served the pair and its images.  A fixed probe sequence (general ->
+      //      meridional -> equatorial -> short -> the pair itself) is run on the same objects; every result must be bit-identical to the
+      //      result of a brand-new object constructed for that one call (no state may be carried from one call to the next).
+      {
+        const double probes[5][4] = {{10, 0, 40, 70}, {10, 0, 60, 0}, {0, 0, 0, 50}, {30, 0, 30.00001, 0.00001}, {P.lat1, P.lon1, P.lat2, P.lon2}};
+        for (int sv = 0; sv < 3; ++sv) {
+          if (sv == 0 && !E.series) continue;
+          for (int q = 0; q < 5; ++q) {
+            Ctx::Case cs(ctx);
+            Res U = S.inv(sv, probes[q][0], probes[q][1], probes[q][2], probes[q][3]);
+            Solvers F; F.make(E);
+            Res V = F.inv(sv, probes[q][0], probes[q][1], probes[q][2], probes[q][3]); ncalls += 2;
+            bool same = mc::same_bits(U.s12, V.s12) && mc::same_bits(U.azi1, V.azi1) && mc::same_bits(U.azi2, V.azi2) && mc::same_bits(U.a12, V.a12) &&
+                        mc::same_bits(U.m12, V.m12) && mc::same_bits(U.M12, V.M12) && mc::same_bits(U.M21, V.M21) && mc::same_bits(U.S12, V.S12);
+            if (!same)
+              ctx.fail("e" + std::to_string(ei) + "/p" + std::to_string(pi) + "/" + svname(sv) + "/hist" + std::to_string(q),
+                       E.name + " " + svname(sv) + ": Inverse(" + fmt(probes[q][0]) + "," + fmt(probes[q][1]) + "," + fmt(probes[q][2]) + "," + fmt(probes[q][3]) + ") on an object that has served other calls gives s12=" + fx(U.s12) + " azi1=" + fx(U.azi1) + " S12=" + fx(U.S12) +
+                       " but a new object gives s12=" + fx(V.s12) + " azi1=" + fx(V.azi1) + " S12=" + fx(V.S12) + " (previous calls: pair " + fx(P.lat1) + " " + fx(P.lon1) + " " + fx(P.lat2) + " " + fx(P.lon2) + ", its images and probes 0.." + std::to_string(q - 1) + ")",
+                       {{"kind", "history-dependence"}, {"ell", E.name}, {"solver", svname(sv)}, {"probe", std::to_string(q)}});
+          }
+        }
+      }
+      // ---- tiny latitudes: both |lat| <= 1e-20 deg and lon12 short of the equatorial conjugate distance: the answer is the equatorial arc
+      if (P.fam == 't' && std::fabs(P.lat1) <= 1e-20 && std::fabs(P.lat2) <= 1e-20) {
+        const ld l12 = fabsl(remainderl((ld)P.lon2 - (ld)P.lon1, 360.0L));
+        if (E.f <= 0 || l12 <= (1 - (ld)E.f) * 180 - 1e-6L) {
+          for (int sv = 0; sv < 3; ++sv) if (have[sv]) {
+            Ctx::Case cs(ctx);
+            const Res& R = base[sv]; const ld tol = tolv[sv];
+            ld es = fabsl((ld)R.s12 - E.e.a * l12 * D), ea = fabsl((ld)R.a12 - l12 / (1 - (ld)E.f)) * D * E.e.b;
+            ld ez = std::max(angdiff(R.azi1, 90), angdiff(R.azi2, 90)) * D * E.e.a * sinl(std::min<ld>(l12 * D / (1 - (ld)E.f), geod_ode::pi<ld>() / 2));
+            ld e = std::max(es, std::max(ea, ez));
+            ctx.worstf(std::string("tiny_lat.closed_form.err_over_tol.") + svname(sv), (double)(e / tol), [&] { return E.name + " " + fx(P.lat1) + " " + fx(P.lat2) + " lon12=" + fmt((double)l12); });
+            if (!(e <= tol)) {
+              char inp[160]; snprintf(inp, sizeof inp, "%.12g %.12g %.12g %.12g", P.lat1, P.lon1, P.lat2, P.lon2);
+              ctx.fail("e" + std::to_string(ei) + "/p" + std::to_string(pi) + "/" + svname(sv) + "/tiny", E.name + " " + svname(sv) + " lat1=" + fx(P.lat1) + " lat2=" + fx(P.lat2) + " lon12=" + fmt((double)l12) + ": s12=" + fx(R.s12) + " a12=" + fx(R.a12) + " azi1=" + fx(R.azi1) + " azi2=" + fx(R.azi2) +
+                       " but the equatorial arc is s12=" + fmtl(E.e.a * l12 * D) + " a12=" + fmtl(l12 / (1 - (ld)E.f)) + " azi=90", {{"kind", "equatorial-closed-form"}, {"ell", E.name}, {"solver", svname(sv)}, {"family", "t"}, {"input", inp}, {"regime", geodlat::pair_regime(E, P, R.a12)}});
+            }
+          }
         }
       }
       // ---- the solvers agree
